@@ -8,6 +8,7 @@ package trzsz
 
 import (
 	"errors"
+	"net"
 	"strings"
 	"sync"
 	"time"
@@ -16,11 +17,25 @@ import (
 type verifErrTellWriter struct {
 	mu    sync.Mutex
 	t     *trzszTransfer
-	lines []string // "<type>" or "<type>:names", prefixed with "early:" when written before cleanInput, "late:" after serverExit
+	lines []string // "<type>" or "<type>:names", prefixed with "early:" when written before cleanInput, "late:" after serverExit, "tunnel:" when written to the accepted tunnel connection
 	names string
 }
 
-func (w *verifErrTellWriter) Write(p []byte) (int, error) {
+func (w *verifErrTellWriter) Write(p []byte) (int, error) { return w.record(p, false) }
+
+// verifErrTellConn: a tunnel connection that records what is written to it in the same list
+type verifErrTellConn struct{ w *verifErrTellWriter }
+
+func (c verifErrTellConn) Write(p []byte) (int, error)        { return c.w.record(p, true) }
+func (c verifErrTellConn) Read(p []byte) (int, error)         { select {} }
+func (c verifErrTellConn) Close() error                       { return nil }
+func (c verifErrTellConn) LocalAddr() net.Addr                { return &net.TCPAddr{} }
+func (c verifErrTellConn) RemoteAddr() net.Addr               { return &net.TCPAddr{} }
+func (c verifErrTellConn) SetDeadline(t time.Time) error      { return nil }
+func (c verifErrTellConn) SetReadDeadline(t time.Time) error  { return nil }
+func (c verifErrTellConn) SetWriteDeadline(t time.Time) error { return nil }
+
+func (w *verifErrTellWriter) record(p []byte, tunnel bool) (int, error) {
 	w.mu.Lock()
 	defer w.mu.Unlock()
 	line := strings.TrimRight(string(p), "\r\n")
@@ -38,6 +53,9 @@ func (w *verifErrTellWriter) Write(p []byte) (int, error) {
 	if w.t.termReseted.Load() {
 		item = "late:" + item
 	}
+	if tunnel {
+		item = "tunnel:" + item
+	}
 	w.lines = append(w.lines, item)
 	return len(p), nil
 }
@@ -48,9 +66,22 @@ func (w *verifErrTellWriter) Write(p []byte) (int, error) {
 // created: a path recorded as created by this transfer ("" = none).
 // Returns the lines written (in order) and whether the terminal was reset (serverExit ran).
 func VerifErrTell(side string, isTrz bool, errType string, trace bool, sad bool, flag bool, created string) (lines []string, exited bool) {
+	return VerifErrTellTunnel(side, isTrz, errType, trace, sad, flag, created, 0)
+}
+
+// VerifErrTellTunnel: the same with the state of the tunnel.  tunnel 0: no tunnel connection;
+// 1: a tunnel connection has been accepted (tunnelConn set) but the ACT has not been read
+// (tunnelConnected false, the writer is still the in-band one); 2: accepted and connected.
+// Lines written to the tunnel connection are prefixed with "tunnel:".
+func VerifErrTellTunnel(side string, isTrz bool, errType string, trace bool, sad bool, flag bool, created string, tunnel int) (lines []string, exited bool) {
 	w := &verifErrTellWriter{}
 	t := newTransfer(w, nil, false, nil)
 	w.t = t
+	if tunnel > 0 {
+		var conn net.Conn = verifErrTellConn{w}
+		t.tunnelConn.Store(&conn)
+		t.tunnelConnected = tunnel == 2
+	}
 	t.cleanTimeout = 5 * time.Millisecond
 	t.stopAndDelete.Store(flag)
 	if created != "" {
